@@ -143,6 +143,49 @@ fn check_datum(ctx: &mut Ctx, rv: &RVal) {
             views.push(("None", observe(&None::<Value>, ordered)));
             views.push(("Some(None)", observe(&Some(None::<Value>), ordered)));
         }
+        // bare Rust scalars, and the scalar types of the model, are views of the scalar they denote
+        if let Some(sc) = v.as_scalar() {
+            views.push(("ScalarCow", observe(&sc, ordered)));
+            views.push(("Scalar(owned)", observe(&sc.clone().into_owned(), ordered)));
+            match rv {
+                RVal::Int(n) => {
+                    views.push(("i64", observe(n, ordered)));
+                    if let Ok(x) = i32::try_from(*n) {
+                        views.push(("i32", observe(&x, ordered)));
+                    }
+                    if let Ok(x) = u32::try_from(*n) {
+                        views.push(("u32", observe(&x, ordered)));
+                    }
+                    if let Ok(x) = i16::try_from(*n) {
+                        views.push(("i16", observe(&x, ordered)));
+                    }
+                    if let Ok(x) = u16::try_from(*n) {
+                        views.push(("u16", observe(&x, ordered)));
+                    }
+                    if let Ok(x) = i8::try_from(*n) {
+                        views.push(("i8", observe(&x, ordered)));
+                    }
+                    if let Ok(x) = u8::try_from(*n) {
+                        views.push(("u8", observe(&x, ordered)));
+                    }
+                }
+                RVal::Float(f) => {
+                    views.push(("f64", observe(f, ordered)));
+                    if (*f as f32) as f64 == *f {
+                        views.push(("f32", observe(&(*f as f32), ordered)));
+                    }
+                }
+                RVal::Bool(b) => views.push(("bool", observe(b, ordered))),
+                RVal::Str(text) => {
+                    views.push(("&str", observe(&text.as_str(), ordered)));
+                    views.push(("String", observe(&text.clone(), ordered)));
+                    views.push(("KString", observe(&liquid::model::KString::from_ref(text), ordered)));
+                    views.push(("KStringCow", observe(&liquid::model::KStringCow::from_ref(text), ordered)));
+                    views.push(("Vec<&str>[0]", observe(liquid::model::ArrayView::get(&vec![text.as_str()], 0).unwrap(), ordered)));
+                }
+                _ => {}
+            }
+        }
         if let Value::Array(a) = &v {
             let vec: Vec<Value> = a.clone();
             views.push(("Vec<Value>", observe(&vec, ordered)));
